@@ -1,7 +1,7 @@
 (* C12 — the property, clause by clause.  Only statements here; every proof is `exact lemma`.
    All theorems hold for EVERY class path cp (which files exist and what they declare), every
    starting world w and every history h: quantification is unbounded. *)
-From V.C12 Require Import Spec Model Proofs.
+From V.C12 Require Import Spec Model Proofs ProofsSound.
 
 (* "Classes, interfaces and functions defined through a temporary VM are visible to code running
    on that VM only: after any sequence of definitions and lookups across a base VM and several
@@ -63,3 +63,13 @@ Theorem constants_persist : forall cp w o n,
 Proof. exact step_const_mono. Qed.
 Print Assumptions constants_write_through.
 Print Assumptions constants_persist.
+
+(* "visible to code running on that VM only", from the positive side: every definition any VM resolves —
+   for every name, kind, history and class path — was introduced by an operation executed on the base VM or
+   on that very VM (an Add*, or an autoloading GetOrLoad*/LoadPkg); an operation of another TempVM is never
+   the source of what a VM sees *)
+Theorem lookup_sound : forall cp h v k n d,
+  In d (lookup (run cp world0 h) v k n) ->
+  exists o, In o h /\ (may_introduce cp o Base k d \/ may_introduce cp o v k d).
+Proof. exact lookup_sound_l. Qed.
+Print Assumptions lookup_sound.
